@@ -27,7 +27,9 @@ ASSUMPTIONS = {
     "A9": "functions under contract are not monkey-patched at run time",
     "A10": "termination is not verified except where a `decreases` obligation is listed",
     "A12": "distinct parameters of a function under contract do not alias each other",
-    "A13": "z3 5.1 / cvc5 1.0.3 are correct on the queries they answer `unsat` (Seq/String queries need cvc5 not to contradict z3)",
+    "A13": "solvers: a query with sequence/string operations counts as proved only when a cvc5 (1.0.3, 1.0.3 --seq-array=lazy or 1.4) "
+           "answers unsat -- on the query itself or on z3's quantifier-free certificate (ground part + the lemma instances of z3's "
+           "refutation); z3 5.1 alone is trusted only for pure datatype/arithmetic queries",
 }
 
 
